@@ -70,7 +70,8 @@ ASSUMPTIONS = [
     "the same element (a symbol in [A-Za-z*]+) in both halves, element/charge attributes = reactant half, (before, after) orders from "
     "{absent, 1, 1.5, 2, 3} not both absent, standard_order = before - after (what ITSGraph / get_rc produce; 99% of the exported graphs "
     "of a run satisfy it, see distribution.its_ok_exports)",
-    "domain of C10_h_roundtrip = graphs without explicit H; of C10_h_total_implicit = h_dom (every explicit H has hcount 0 and at most one "
+    "domain of C10_h_roundtrip = graphs without explicit H, widened in round 6 (C10_h_roundtrip_bare_hydrogens) to graphs whose hydrogen atoms "
+    "are all bare (no implicit hydrogens of their own, only hydrogen neighbours: H2, H+, lone H); of C10_h_total_implicit = h_dom (every explicit H has hcount 0 and at most one "
     "heavy neighbour); outside these domains the clauses fail and the proof files carry the witnesses (bridging H, H with hcount, H already explicit)",
     "hcount and aromaticity are not carried by GML (stated in C10_gml_roundtrip: gml_node); stereo and isotope labels are not carried by the graph layer",
     "h_to_explicit(its=True) (C10_h_*_any_mode): the typesGH halves stay lowered after implicit-again and bond dictionaries are "
@@ -95,7 +96,7 @@ TESTED_NOT_PROVED = [
     "graph_to_rsmi / its_to_rsmi / gml_to_smart: modelled up to the two RWMol handed to RDKit (observed on the real call by a spy on "
     "graph_to_smi / GraphToMol.graph_to_mol); what RDKit writes from them is not modelled",
 ]
-LEVEL_TEXT = ("Machine-checked proof (Coq, 58 theorems, closed under the global context) over an executable model of the GML writer/reader at "
+LEVEL_TEXT = ("Machine-checked proof (Coq, 60 theorems, closed under the global context) over an executable model of the GML writer/reader at "
               "record level, of its_to_gml / gml_to_its / smart_to_gml / get_rc / its_decompose / ITSGraph at graph level, of h_to_explicit / "
               "h_to_implicit, and of the attribute copying of MolToGraph / GraphToMol: label round trip for every element symbol and every "
               "charge; ITS -> GML -> ITS restores atoms, both-side charges and (before, after) orders for every reaction-centre-shaped ITS, "
